@@ -14,6 +14,7 @@ from runtime.harness import Harness
 
 SHAPES = "class Circle:\n    pass\n\nclass Square:\n    pass\n\nSIDE = 4\n"
 OTHER = "class Thing:\n    pass\n"
+TYPINGISH = "class Helper:\n    pass\n"      # a user module whose *name* starts with `typing`: not the typing module
 BODY = "\n\ndef area(c, k=1):\n    return k\n\n\ndef make():\n    return None\n\n\nRESULT = area(None)\n"
 SOURCES = {
     "plain": "" + BODY,
@@ -36,6 +37,9 @@ SOURCES = {
     # the name bound by a top-level import is bound again later (function-local import, except-branch fallback): the top-level import is still the source's own
     "name-rebound-in-function": "from shapes16 import Circle\n" + BODY + "\nKEEP = Circle\n\n\ndef lazy():\n    from other16 import Thing as Circle\n    return Circle()\n\n\nLAZY = lazy()\n",
     "try-fallback-import": "try:\n    from shapes16 import Circle\nexcept ImportError:\n    from other16 import Thing as Circle\n" + BODY + "\nKEEP = Circle\n",
+    # an explicit import next to a star import of the same module (libcst's gatherer stops recording explicit names of a star-imported module)
+    "star-then-explicit": "from shapes16 import *\nfrom shapes16 import Circle\n" + BODY + "\nKEEP = Circle\n",
+    "explicit-then-star": "from shapes16 import Circle\nfrom shapes16 import *\n" + BODY + "\nKEEP = Circle\n",
     "module-alias-rebound": "import shapes16 as sh\n" + BODY + "\nSIDE2 = sh.SIDE\n\n\ndef lazy():\n    import other16 as sh\n    return sh.Thing()\n\n\nLAZY = lazy()\n",
     # nothing left to annotate (libcst's applier then returns the tree untouched)
     "already-annotated": "import os\n\n\ndef area(c: object, k: int = 1) -> int:\n    return k\n\n\ndef make() -> None:\n    return None\n\n\nRESULT = area(None)\n",
@@ -44,6 +48,7 @@ SOURCES = {
 STUBS = {
     "new-user-class": "from shapes16 import Circle\ndef area(c: Circle, k: int = ...) -> int: ...\n",
     "two-modules": "from other16 import Thing\nfrom shapes16 import Circle\ndef area(c: Circle, k: int = ...) -> int: ...\ndef make() -> Thing: ...\n",
+    "module-named-like-typing": "from typing16_helpers import Helper\ndef area(c: Helper, k: int = ...) -> int: ...\n",
     "typing-names": "from typing import List, Optional\ndef area(c: Optional[int], k: int = ...) -> int: ...\ndef make() -> List[int]: ...\n",
     "already-imported": "from shapes16 import Square\ndef area(c: Square, k: int = ...) -> int: ...\n",
     "only-existing-imports": "from typing import Optional\nclass Node:\n    def link(self, other: Optional[Node]) -> Optional[Node]: ...\ndef area(c: Optional[int], k: int = ...) -> int: ...\n",
@@ -76,7 +81,7 @@ def run(ctx):
     tmp = tempfile.mkdtemp(prefix="verif_c16_")
     sys.path.insert(0, tmp)
     try:
-        for n, src in (("shapes16", SHAPES), ("other16", OTHER)):
+        for n, src in (("shapes16", SHAPES), ("other16", OTHER), ("typing16_helpers", TYPINGISH)):
             with open(os.path.join(tmp, n + ".py"), "w") as f:
                 f.write(src)
         H.section("confinement on real libcst", "%d source shapes (imports at top / after docstring / after __future__ / in functions / in an existing TYPE_CHECKING block, import a.b, aliases, star imports) x %d stubs "
@@ -101,7 +106,12 @@ def run(ctx):
                     problems.append("source import `%s` is gone / moved" % stmt)
             stub_imports = [s for s, _, _ in import_facts(ast.parse(stub))]
             src_imports = {s for s, _, _ in before}
+            readded = []
             for stmt in stub_imports:
+                if stmt in src_imports and not stmt.startswith(("from typing import", "from mypy_extensions")):
+                    # the source makes this import, but only inside a function / under an existing guard: a module-level run-time copy must not appear
+                    if not any(s_ == stmt and d_ == 0 and not tc_ for s_, tc_, d_ in before) and any(s_ == stmt and d_ == 0 and not tc_ for s_, tc_, d_ in after):
+                        readded.append(stmt)
                 if stmt in src_imports or stmt.startswith("from typing import") or stmt.startswith("from mypy_extensions"):
                     continue
                 places = [(tc, d) for s, tc, d in after if s == stmt]
@@ -117,6 +127,11 @@ def run(ctx):
                     problems.append("module behaves differently (RESULT=%r)" % ns.get("RESULT"))
             except Exception as e:
                 problems.append("result does not import: %r" % (e,))
+            if readded and not problems:
+                H.violation("monkeytype.cli:get_newly_imported_items", "C16-local-or-guarded-import-readded-unconfined|%s" % sn,
+                            "an import the source makes only inside a function / under an existing TYPE_CHECKING guard is added once more at module level, at run time, by libcst - and is not confined (not new for MonkeyType)",
+                            {"source": sn, "stub": tn}, {"readded": readded, "result_head": out[:400]})
+                continue
             if problems:
                 if any("TypedDict" in p_ for p_ in problems) and tn == "typed-dict":
                     kind = "C16-typeddict-import-confined"
@@ -151,7 +166,7 @@ def run(ctx):
             H.theory_failure("mk-item-fields", "ImportItem is not a value determined by (module_name, obj_name, alias)", {})
     finally:
         sys.path.remove(tmp)
-        for n in ("shapes16", "other16"):
+        for n in ("shapes16", "other16", "typing16_helpers"):
             sys.modules.pop(n, None)
         shutil.rmtree(tmp, ignore_errors=True)
     return H.result()
